@@ -52,6 +52,8 @@ fn main() {
     "C02" => dispatch!(props::c01::C02),
     "C03" => dispatch!(props::c03::C03),
     "C04" => dispatch!(props::c04::C04),
+    "C05" => dispatch!(props::c05::C05),
+    "C06" => dispatch!(props::c05::C06),
     "C07" => dispatch!(props::c07::C07),
     "C08" => dispatch!(props::c08::C08),
     "C09" => dispatch!(props::c09::C09),
